@@ -54,9 +54,12 @@ Definition class_names :=
    sarray_names ++ darray_names ++ struct_names)%list.
 Definition base_names := ["bin"; "binary"; "oct"; "octal"; "dec"; "decimal"; "hex"; "hexadecimal"].
 Definition byte_order_names := ["le"; "little"; "little-endian"; "be"; "big"; "big-endian"].
+(* the reserved words of docs/modules/yaml/pages/index.adoc (TSDL keywords and C keywords) *)
 Definition ctf_keywords :=
   ["align"; "callsite"; "clock"; "enum"; "env"; "event"; "floating_point"; "integer"; "stream";
-   "string"; "struct"; "trace"; "typealias"; "typedef"; "variant"].
+   "string"; "struct"; "trace"; "typealias"; "typedef"; "variant";
+   "const"; "char"; "double"; "float"; "int"; "long"; "short"; "signed"; "unsigned"; "void";
+   "_Bool"; "_Complex"; "_Imaginary"].
 
 (* a C / TSDL identifier as the documentation asks for names: a letter or underscore followed
    by letters, digits, underscores ... *)
@@ -73,18 +76,14 @@ Definition ident_or_nl (s : string) : Prop :=
    [true] is the documentation; [false] is the weaker statement that the current schemas are
    proved to enforce.  The remaining differences (each one is a `_refuted` theorem in
    Props/C09.v):
-     S19  integer-valued properties: a float with an integral value passes for an integer
-     enumeration: `mappings` may be null
      names: an identifier (or UUID) followed by one newline is accepted
-   (S4 dynamic array, S14 static array length, structure member names and the unknown
-   properties of the trace object were differences of this kind until they were repaired in
-   /repo; the corresponding constraints are now part of both versions.) *)
-Definition intP (strict : bool) : Z -> option Z -> json -> Prop :=
-  if strict then int_doc else int_val.
+   (S4 dynamic array, S14 static array length, structure member names, the unknown properties
+   of the trace object, S19 integral floats and null enumeration mappings were differences of this kind until they were
+   repaired in /repo; the corresponding constraints are now part of both versions.) *)
+Definition intP (strict : bool) : Z -> option Z -> json -> Prop := int_doc.
 Definition identP (strict : bool) (s : string) : Prop :=
   if strict then ident_strict s = true else ident_or_nl s.
-Definition is_int (strict : bool) (x : json) : Prop :=
-  if strict then exists z, x = JInt z else exists z, as_int x = Some z.
+Definition is_int (strict : bool) (x : json) : Prop := exists z, x = JInt z.
 
 (* ---- field types (effective: no alias, no $inherit) *)
 
@@ -102,7 +101,6 @@ Definition enum_range (P : json -> Prop) (r : json) : Prop :=
 Definition enum_mapping (P : json -> Prop) (x : json) : Prop :=
   exists l, x = JArr l /\ l <> [] /\ forall r, In r l -> enum_range P r.
 Definition mappings_doc (strict : bool) (x : json) : Prop :=
-  (strict = false /\ x = JNull) \/
   exists mm, x = JObj mm /\ mm <> [] /\ forall k v, In (k, v) mm -> enum_mapping (is_int strict) v.
 Definition enum_ft_doc (strict : bool) (classes : list string) (j : json) : Prop :=
   exists m, j = JObj m /\
@@ -113,9 +111,7 @@ Definition enum_ft_doc (strict : bool) (classes : list string) (j : json) : Prop
     required m "mappings" (mappings_doc strict) /\
     only_keys m ["class"; "size"; "alignment"; "preferred-display-base"; "mappings"].
 
-Definition real_size (strict : bool) (x : json) : Prop :=
-  if strict then x = JInt 32 \/ x = JInt 64
-  else exists z, as_int x = Some z /\ (z = 32 \/ z = 64)%Z.
+Definition real_size (strict : bool) (x : json) : Prop := x = JInt 32 \/ x = JInt 64.
 Definition real_ft_doc (strict : bool) (j : json) : Prop :=
   exists m, j = JObj m /\
     required m "class" (str_in real_names) /\
@@ -325,16 +321,3 @@ Definition cfg_packet_features (cfg : json) : list obj :=
 Definition doc_total_ge_content (cfg : json) : Prop :=
   forall p, In p (cfg_packet_features cfg) -> total_ge_content p.
 
-(* a document without floats and without a null `mappings` property: the two remaining ways in
-   which a schema-valid field type differs from a documented one and that matter to
-   `_create_config` *)
-Definition null_mappings (kx : string * json) : bool :=
-  String.eqb (fst kx) "mappings" && match snd kx with JNull => true | _ => false end.
-Fixpoint clean (j : json) : bool :=
-  match j with
-  | JFloat _ => false
-  | JArr l => (fix go (l : list json) : bool := match l with [] => true | x :: l => clean x && go l end) l
-  | JObj m => (fix go (m : list (string * json)) : bool :=
-                 match m with [] => true | kx :: m => negb (null_mappings kx) && clean (snd kx) && go m end) m
-  | _ => true
-  end.
